@@ -11,9 +11,9 @@ package vecfc
 //@ // well-formed vectors: whole entries, length fits the 32-bit index arithmetic
 //@ spec lawf(b []byte) bool = len(b) % 4 == 0 && len(b) <= 4294967292
 //@ spec hbwf(b []byte) bool = len(b) % 8 == 0 && len(b) <= 4294967288
-//@ spec laGet(b []byte, i int) int = ite(i * 4 + 4 <= len(b), le32(b[i*4:i*4+4]), 0)
-//@ spec hbSeq(b []byte, i int) int = ite(i * 8 + 8 <= len(b), le32(b[i*8:i*8+4]), 0)
-//@ spec hbMin(b []byte, i int) int = ite(i * 8 + 8 <= len(b), le32(b[i*8+4:i*8+8]), 0)
+//@ spec defined laGet(b []byte, i int) int = ite(i * 4 + 4 <= len(b), le32(b[i*4:i*4+4]), 0)
+//@ spec defined hbSeq(b []byte, i int) int = ite(i * 8 + 8 <= len(b), le32(b[i*8:i*8+4]), 0)
+//@ spec defined hbMin(b []byte, i int) int = ite(i * 8 + 8 <= len(b), le32(b[i*8+4:i*8+8]), 0)
 //@ // the fork marker is Seq = 0 together with MinSeq = MaxInt32
 //@ spec hbFork(b []byte, i int) bool = hbSeq(b, i) == 0 && hbMin(b, i) == MaxI32
 //@
@@ -26,6 +26,7 @@ package vecfc
 //@ func (*LowestAfterSeq).Set
 //@   requires b != nil && lawf(deref(b)) && i < 1073741823
 //@   modifies deref(b), deref(b)[*]
+//@   ensures  [arr] arrof(deref(b)) == old(arrof(deref(b))) || arrfresh(deref(b), old(_alloc))
 //@   ensures  [len] len(deref(b)) == max(old(len(deref(b))), 4 * (i + 1)) && lawf(deref(b))
 //@   ensures  [set] laGet(deref(b), i) == seq
 //@   ensures  [others] forall(j int, j >= 0 && j != i ==> laGet(deref(b), j) == old(laGet(deref(b), j)))
@@ -44,6 +45,7 @@ package vecfc
 //@ func (*HighestBeforeSeq).Set
 //@   requires b != nil && hbwf(deref(b)) && i < 536870911
 //@   modifies deref(b), deref(b)[*]
+//@   ensures  [arr] arrof(deref(b)) == old(arrof(deref(b))) || arrfresh(deref(b), old(_alloc))
 //@   ensures  [len] len(deref(b)) == max(old(len(deref(b))), 8 * (i + 1)) && hbwf(deref(b))
 //@   ensures  [set] hbSeq(deref(b), i) == seq.Seq && hbMin(deref(b), i) == seq.MinSeq
 //@   ensures  [others] forall(j int, j >= 0 && j != i ==> hbSeq(deref(b), j) == old(hbSeq(deref(b), j)) && hbMin(deref(b), j) == old(hbMin(deref(b), j)))
@@ -61,18 +63,21 @@ package vecfc
 //@ func (*LowestAfterSeq).InitWithEvent
 //@   requires b != nil && lawf(deref(b)) && i < 1073741823 && e != nil
 //@   modifies deref(b), deref(b)[*]
+//@   ensures  [arr] arrof(deref(b)) == old(arrof(deref(b))) || arrfresh(deref(b), old(_alloc))
 //@   ensures  len(deref(b)) == max(old(len(deref(b))), 4 * (i + 1)) && lawf(deref(b)) && laGet(deref(b), i) == e.Seq()
 //@   ensures  forall(j int, j >= 0 && j != i ==> laGet(deref(b), j) == old(laGet(deref(b), j)))
 //@ // Visit records the first (lowest) observer only: an entry that is already set is never overwritten
 //@ func (*LowestAfterSeq).Visit
 //@   requires b != nil && lawf(deref(b)) && i < 1073741823 && e != nil
 //@   modifies deref(b), deref(b)[*]
+//@   ensures  [arr] arrof(deref(b)) == old(arrof(deref(b))) || arrfresh(deref(b), old(_alloc))
 //@   ensures  [seen] old(laGet(deref(b), i)) != 0 ==> !result && len(deref(b)) == old(len(deref(b))) && forall(j int, j >= 0 ==> laGet(deref(b), j) == old(laGet(deref(b), j)))
 //@   ensures  [new] old(laGet(deref(b), i)) == 0 ==> result && laGet(deref(b), i) == e.Seq() && len(deref(b)) == max(old(len(deref(b))), 4 * (i + 1)) && forall(j int, j >= 0 && j != i ==> laGet(deref(b), j) == old(laGet(deref(b), j)))
 //@   ensures  lawf(deref(b))
 //@ func (*HighestBeforeSeq).InitWithEvent
 //@   requires b != nil && hbwf(deref(b)) && i < 536870911 && e != nil
 //@   modifies deref(b), deref(b)[*]
+//@   ensures  [arr] arrof(deref(b)) == old(arrof(deref(b))) || arrfresh(deref(b), old(_alloc))
 //@   ensures  len(deref(b)) == max(old(len(deref(b))), 8 * (i + 1)) && hbwf(deref(b)) && hbSeq(deref(b), i) == e.Seq() && hbMin(deref(b), i) == e.Seq()
 //@   ensures  forall(j int, j >= 0 && j != i ==> hbSeq(deref(b), j) == old(hbSeq(deref(b), j)) && hbMin(deref(b), j) == old(hbMin(deref(b), j)))
 //@ func (*HighestBeforeSeq).IsEmpty
@@ -90,6 +95,7 @@ package vecfc
 //@ func (*HighestBeforeSeq).SetForkDetected
 //@   requires b != nil && hbwf(deref(b)) && i < 536870911
 //@   modifies deref(b), deref(b)[*]
+//@   ensures  [arr] arrof(deref(b)) == old(arrof(deref(b))) || arrfresh(deref(b), old(_alloc))
 //@   ensures  len(deref(b)) == max(old(len(deref(b))), 8 * (i + 1)) && hbwf(deref(b)) && hbFork(deref(b), i)
 //@   ensures  forall(j int, j >= 0 && j != i ==> hbSeq(deref(b), j) == old(hbSeq(deref(b), j)) && hbMin(deref(b), j) == old(hbMin(deref(b), j)))
 //@
@@ -105,6 +111,7 @@ package vecfc
 //@   requires self != nil && hbwf(deref(self)) && to < 536870911 && typeis(_other, "*HighestBeforeSeq")
 //@   requires unbox(_other, "*HighestBeforeSeq") != nil && unbox(_other, "*HighestBeforeSeq") != self && hbwf(deref(unbox(_other, "*HighestBeforeSeq"))) && arrof(deref(unbox(_other, "*HighestBeforeSeq"))) != arrof(deref(self))
 //@   modifies deref(self), deref(self)[*]
+//@   ensures  [arr] arrof(deref(self)) == old(arrof(deref(self))) || arrfresh(deref(self), old(_alloc))
 //@   ensures  [len] len(deref(self)) == max(old(len(deref(self))), 8 * (to + 1)) && hbwf(deref(self))
 //@   ensures  [fork] gfork(deref(unbox(_other, "*HighestBeforeSeq")), from, len(from)) ==> hbFork(deref(self), to)
 //@   ensures  [seq] !gfork(deref(unbox(_other, "*HighestBeforeSeq")), from, len(from)) ==> hbSeq(deref(self), to) == gmax(deref(unbox(_other, "*HighestBeforeSeq")), from, len(from))
@@ -117,3 +124,31 @@ package vecfc
 //@   loop 1 invariant highestBranchSeq.Seq == 0 ==> highestBranchSeq.MinSeq == 0
 //@   loop 1 hint use gmax_ub(deref(other), from, _k - 1)
 //@   loop 1 invariant highestBranchSeq.Seq > 0 ==> exists(j, 0, _k, hbSeq(deref(other), from[j]) == highestBranchSeq.Seq && hbMin(deref(other), from[j]) == highestBranchSeq.MinSeq && forall(k, 0, j, hbSeq(deref(other), from[k]) < highestBranchSeq.Seq))
+//@
+//@ // CollectFrom merges the first num entries of 'other' (a parent's vector) into the receiver, entry by entry:
+//@ // an empty entry of the parent changes nothing; a fork mark is absorbing; otherwise Seq is the maximum and
+//@ // MinSeq the minimum over the non-empty entries
+//@ spec isF(s int, m int) bool = s == 0 && m == MaxI32
+//@ spec cfKeep(mS int, mM int, hS int, hM int) bool = (hS == 0 && !isF(hS, hM)) || isF(mS, mM)
+//@ spec cfSeq(mS int, mM int, hS int, hM int) int = ite(cfKeep(mS, mM, hS, hM), mS, ite(isF(hS, hM), 0, max(mS, hS)))
+//@ spec cfMin(mS int, mM int, hS int, hM int) int = ite(cfKeep(mS, mM, hS, hM), mM, ite(isF(hS, hM), MaxI32, ite(mS == 0 || mM > hM, hM, mM)))
+//@ func (*HighestBeforeSeq).CollectFrom
+//@   requires self != nil && hbwf(deref(self)) && num <= 536870911 && typeis(_other, "*HighestBeforeSeq")
+//@   requires unbox(_other, "*HighestBeforeSeq") != nil && unbox(_other, "*HighestBeforeSeq") != self && hbwf(deref(unbox(_other, "*HighestBeforeSeq"))) && arrof(deref(unbox(_other, "*HighestBeforeSeq"))) != arrof(deref(self))
+//@   modifies deref(self), deref(self)[*]
+//@   ensures  [arr] arrof(deref(self)) == old(arrof(deref(self))) || arrfresh(deref(self), old(_alloc))
+//@   ensures  [wf] hbwf(deref(self)) && len(deref(self)) >= old(len(deref(self))) && len(deref(self)) <= max(old(len(deref(self))), 8 * num)
+//@   ensures  [merged] forall(j, 0, num, hbSeq(deref(self), j) == cfSeq(old(hbSeq(deref(self), j)), old(hbMin(deref(self), j)), hbSeq(deref(unbox(_other, "*HighestBeforeSeq")), j), hbMin(deref(unbox(_other, "*HighestBeforeSeq")), j)) && hbMin(deref(self), j) == cfMin(old(hbSeq(deref(self), j)), old(hbMin(deref(self), j)), hbSeq(deref(unbox(_other, "*HighestBeforeSeq")), j), hbMin(deref(unbox(_other, "*HighestBeforeSeq")), j)))
+//@   ensures  [others] forall(j int, j >= num ==> hbSeq(deref(self), j) == old(hbSeq(deref(self), j)) && hbMin(deref(self), j) == old(hbMin(deref(self), j)))
+//@   loop 1 modifies deref(self), deref(self)[*]
+//@   loop 1 invariant arrof(deref(self)) == arrof(atentry(deref(self))) || arrfresh(deref(self), _loopalloc)
+//@   loop 1 invariant arrof(deref(self)) == old(arrof(deref(self))) || arrfresh(deref(self), old(_alloc))
+//@   loop 1 invariant 0 <= branchID && branchID <= num && hbwf(deref(self)) && len(deref(self)) >= old(len(deref(self))) && len(deref(self)) <= max(old(len(deref(self))), 8 * branchID)
+//@   loop 1 invariant [other] arrof(deref(other)) != arrof(deref(self)) && forall(j int, j >= 0 ==> hbSeq(deref(other), j) == old(hbSeq(deref(other), j)) && hbMin(deref(other), j) == old(hbMin(deref(other), j)))
+//@   loop 1 invariant [merged] forall(j, 0, branchID, hbSeq(deref(self), j) == cfSeq(old(hbSeq(deref(self), j)), old(hbMin(deref(self), j)), hbSeq(deref(other), j), hbMin(deref(other), j)) && hbMin(deref(self), j) == cfMin(old(hbSeq(deref(self), j)), old(hbMin(deref(self), j)), hbSeq(deref(other), j), hbMin(deref(other), j)))
+//@   loop 1 hint assert forall(j int, j >= 0 && j != iterold(branchID) ==> hbSeq(deref(self), j) == iterold(hbSeq(deref(self), j)) && hbMin(deref(self), j) == iterold(hbMin(deref(self), j)))
+//@   loop 1 hint assert hbSeq(deref(other), iterold(branchID)) == iterold(hbSeq(deref(other), branchID)) && hbMin(deref(other), iterold(branchID)) == iterold(hbMin(deref(other), branchID))
+//@   loop 1 hint assert iterold(hbSeq(deref(self), branchID)) == old(hbSeq(deref(self), iterold(branchID))) && iterold(hbMin(deref(self), branchID)) == old(hbMin(deref(self), iterold(branchID)))
+//@   loop 1 hint assert hbSeq(deref(self), iterold(branchID)) == cfSeq(old(hbSeq(deref(self), iterold(branchID))), old(hbMin(deref(self), iterold(branchID))), hbSeq(deref(other), iterold(branchID)), hbMin(deref(other), iterold(branchID)))
+//@   loop 1 hint assert hbMin(deref(self), iterold(branchID)) == cfMin(old(hbSeq(deref(self), iterold(branchID))), old(hbMin(deref(self), iterold(branchID))), hbSeq(deref(other), iterold(branchID)), hbMin(deref(other), iterold(branchID)))
+//@   loop 1 invariant [rest] forall(j int, j >= branchID ==> hbSeq(deref(self), j) == old(hbSeq(deref(self), j)) && hbMin(deref(self), j) == old(hbMin(deref(self), j)))
